@@ -231,15 +231,60 @@ func vmergeCheck(bufs [][][]ventry) {
 		}
 	}
 	rt.Assert("merge/size", int(res.size) == n && res.Len() == n)
-	// probe: an arbitrary key
-	p := rt.Str("probe", 1)
-	kind, off := vfold(flat, p)
-	got := res.Lookup(p)
-	rt.Observe("got", got)
-	if kind == vNone {
-		rt.Assert("merge/absent", got == 0)
+	// every slot of the result carries exactly the folded change of its key, and every key whose
+	// changes fold to something appears: together with sorted+unique this fixes the whole mapping
+	for _, c := range res.chunks {
+		for _, s := range c {
+			kind, off := vfold(flat, s.key)
+			rt.Assert("merge/slot-is-fold", kind != vNone && kind != vBad && s.off == off|vflags(kind))
+		}
+	}
+	want := 0
+	for bi, es := range flat {
+		for ei, e := range es {
+			firstOcc := true
+			for bj := 0; bj <= bi; bj++ {
+				for ej, f := range flat[bj] {
+					if (bj < bi || ej < ei) && f.key == e.key {
+						firstOcc = false
+					}
+				}
+			}
+			if firstOcc {
+				if k, _ := vfold(flat, e.key); k != vNone {
+					want++
+				}
+			}
+		}
+	}
+	rt.Assert("merge/count-is-distinct-surviving-keys", n == want)
+	if rt.Thorough() {
+		// additionally an arbitrary probe key through Lookup
+		p := rt.Str("probe", 1)
+		kind, off := vfold(flat, p)
+		got := res.Lookup(p)
+		if kind == vNone {
+			rt.Assert("merge/absent", got == 0)
+		} else {
+			rt.Assert("merge/lookup", got == off|vflags(kind))
+		}
 	} else {
-		rt.Assert("merge/lookup", got == off|vflags(kind))
+		// quick: Lookup of the first free entry's key
+		for _, es := range flat {
+			for _, e := range es {
+				if e.free {
+					kind, off := vfold(flat, e.key)
+					got := res.Lookup(e.key)
+					if kind == vNone {
+						rt.Assert("merge/absent", got == 0)
+					} else {
+						rt.Assert("merge/lookup", got == off|vflags(kind))
+					}
+					goto done
+				}
+			}
+		}
+	done:
 	}
 	for i, ib := range ibs {
 		if res != ib {
@@ -356,18 +401,25 @@ func VerifC11Insert() {
 
 // C11 Insert into a full chunk: the chunk splits; everything stays sorted, unique and findable.
 //
-//symgo:harness prop=C11 tier=quick shards=4 timeout=300 bounds=one_chunk_of_24_concrete_ramp_keys;two_arbitrary_inserted_keys
+//symgo:harness prop=C11 tier=quick shards=4 timeout=300 bounds=one_chunk_of_24_concrete_ramp_keys;one_arbitrary_inserted_key(thorough_two)
 func VerifC11InsertSplit() {
 	ramp := vramp(0x10, 24, 100)
 	ib := vbuild(ramp)
-	e1, e2 := vfree("a"), vfree("b")
-	hist := [][]ventry{ramp, {e1}, {e2}}
-	for _, e := range []ventry{e1, e2} {
+	frees := []ventry{vfree("a")}
+	if rt.Thorough() {
+		frees = append(frees, vfree("b"))
+	}
+	hist := [][]ventry{ramp}
+	for _, e := range frees {
+		hist = append(hist, []ventry{e})
+	}
+	for _, e := range frees {
 		k, _ := vfold(hist, e.key)
 		rt.Assume(k != vBad)
 	}
-	ib.Insert(e1.key, e1.off)
-	ib.Insert(e2.key, e2.off)
+	for _, e := range frees {
+		ib.Insert(e.key, e.off)
+	}
 	rt.Reach("inserted")
 	rt.Assert("split/check", !rt.Try(func() { ib.Check() }))
 	cnt := 0
